@@ -119,11 +119,42 @@ def make(prop, judge, *, quick, thorough, rule, assumptions, nontrivial=None, fl
     return {"PROPERTY": prop, "monitor": monitor, "plan": plan, "run_shard": run_shard, "coverage": coverage, "vacuity": vacuity, "replay": replay}
 
 
-def std_quick(ops=None, depth=2, sources=None):
+ML_OPS = ["b_add", "b_mul", "b_cat", "b_cat1", "tk_201", "tk_m1_0", "tk2_ax1", "sl_1_4", "sl2_a", "mb_demean_chunks", "sum0", "rc2", "T"]
+ML4_OPS = ["b_add", "b_cat1", "tk_201", "tk_m1_0", "mb_demean_chunks", "sl_1_4"]
+
+
+def ml_sources(tier):
+    """Pools with three leaves of the same shape under different chunkings:
+    the only way several differently-chunked leaves meet in one expression."""
+    S = [dict(E.src((4, 3), ((4,), (2, 1))), leaves=[((1, 2, 1), (1, 2)), ((1, 3), (1, 2))])]
+    if tier != "quick":
+        S.append(dict(E.src((5, 2), ((1, 4), (2,))), leaves=[((1, 3, 1), (1, 1)), ((1, 1, 2, 1), (2,))]))
+        S.append(dict(E.src((6,), ((2, 1, 3),)), leaves=[((3, 3),), ((1, 1, 1, 1, 1, 1),)]))
+    return S
+
+
+def ml_shards(tier):
+    S = ml_sources(tier)
+    ops3 = OPS.subset(names=ML_OPS)
+    shards = E.plan_shards(S, ops3, 3)
+    bounds = {"multi_leaf_depth3": {"ops": len(ops3), "sources": len(S)}}
+    if tier != "quick":
+        ops4 = OPS.subset(names=ML4_OPS)
+        shards += E.plan_shards(S[:2], ops4, 4)
+        bounds["multi_leaf_depth4"] = {"ops": len(ops4), "sources": 2}
+    return shards, bounds
+
+
+def std_quick(ops=None, depth=2, sources=None, ml=True):
     def f(seed):
         S = sources or std_sources("quick")
         o = ops or OPS.REWRITE
-        return E.plan_shards(S, o, depth), {"depth": depth, "ops": len(o), "sources": len(S)}
+        shards, bounds = E.plan_shards(S, o, depth), {"depth": depth, "ops": len(o), "sources": len(S)}
+        if ml:
+            s2, b2 = ml_shards("quick")
+            shards += s2
+            bounds.update(b2)
+        return shards, bounds
 
     return f
 
@@ -139,6 +170,9 @@ def std_thorough(ops=None, d3=True, sources=None):
             S3 = [s for i, s in enumerate(S) if i % 6 == 0][:16]
             shards += E.plan_shards(S3, d3ops, 3, binary=False)
             bounds["depth3"] = {"ops": len(d3ops), "sources": len(S3), "binary_ops": False}
+        s2, b2 = ml_shards("thorough")
+        shards += s2
+        bounds.update(b2)
         return shards, bounds
 
     return f
